@@ -9,6 +9,7 @@ PROP = {
         "quick": [B("stable"), B("fma", 1.0), B("nightly", 0.25, False)],
         "thorough": [B("stable"), B("fma", 1.0), B("native", 1.0), B("nightly", 0.5, False)],
     },
+    "volume": {"quick": 1.5},
     "technique": "differential property-based testing: SSE2 / core-simd vs scalar-math builds of the same tree linked into one process, perturbation-measured tolerance; cross-process bit-exact differential between target-feature builds",
     "level_text": "Generated-input differential search between backends of the working tree (single calls over the whole API table and resynchronised programs), with an analytic-in-spirit tolerance measured by perturbing the scalar reference, plus a bit-exact comparison of identical case streams between target-feature builds. Exploration, not proof; the tolerance is a measured first-order bound guarded by recorded headroom.",
     "level_note": "Trusted: rustc, proptest, the API-table generator, the scalar-math build as reference. NEON/wasm32 not reachable; fast-math never enabled.",
